@@ -6,7 +6,7 @@
      csend{conn,dsid,tok,short,probe}        a client is about to write a request: its id, unique token, and whether its
                                              timeout is short (the upstream never answers it in time); probe = warm-up
                                              request after an upstream close (may fail while the pool reconnects)
-     urecv{tok,uid}                          the upstream read the request carrying tok under upstream id uid
+     urecv{tok,uid,htok}                     the upstream read a request under upstream id uid: token in its body (tok) and in its header (htok)
      usend{tok,uid,kind}                     the upstream is about to write a reply echoing tok in header and body under id uid
                                              (kind ans | dup | ghost)
      uclose{}                                the upstream is about to close the connection(s) of the proxy
@@ -41,7 +41,9 @@ TCsend == /\ IsEvent("csend")
                 /\ done' = done \ {k}
           /\ UNCHANGED <<produced, unstable, closes>>
 
-TUrecv == IsEvent("urecv") /\ UNCHANGED tv
+TUrecv == /\ IsEvent("urecv")
+          /\ Expect(~Has(Ev, "htok") \/ Ev.htok = Ev.tok, "request-header-and-body-from-different-exchanges")
+          /\ UNCHANGED tv
 TUsend == IsEvent("usend") /\ produced' = produced \cup {Ev.tok} /\ UNCHANGED <<open, done, unstable, closes>>
 TUclose == /\ IsEvent("uclose")
            /\ open' = [x \in DOMAIN open |-> [open[x] EXCEPT !.closedSince = TRUE]]
